@@ -43,6 +43,22 @@ def run_streams(ck, streams, tier, seed, workers=8):
                                   violations=[dict(kind="engine-crashes", input=inp, detail=("; ".join(pm[:2]) + " at " + " <- ".join(frames))[:700])])
                 res["broken"] = None
             return res
+        if st.get("race") and "WARNING: DATA RACE" in err:
+            # the race detector saw two unsynchronised accesses; only reports with a frame inside the engine count
+            # (the first such report is kept: goroutine stacks, engine frames only)
+            for block in err.split("WARNING: DATA RACE")[1:]:
+                block = block.split("==================")[0]
+                frames = [l.strip() for l in block.splitlines() if "/internal/" in l and ".go:" in l and "/harness/" not in l]
+                if not frames:
+                    continue
+                try:
+                    inp = json.load(open(cur)) if os.path.exists(cur) else {}
+                except Exception:
+                    inp = {}
+                inp = dict(inp, harness_command=" ".join(str(a) for a in args), note="unsynchronised accesses reported by the Go race detector while this input was running")
+                heads = [l.strip() for l in block.splitlines() if l.startswith(("Read at", "Write at", "Previous read at", "Previous write at"))]
+                res["extra_viol"].append(dict(kind="data-race", input=inp, detail=("; ".join(heads[:2]) + " :: " + " <- ".join(frames[:6]))[:900]))
+                break
         if st["kind"] == "coqcases":
             ok, cout = C.coq_eval_cases(path, timeout=st.get("coq_timeout", 2400))
             markers = st.get("ok_markers") or [st.get("ok_marker", "M = []")]
